@@ -6,6 +6,8 @@ loses a result that worker (or any other) has already contributed; it stays in `
 in the UpdateAwaitResults command.  (`C04.replace_loses_await_answer` shows the replace variant does.)
 -/
 namespace QM.Sys
+set_option linter.unusedSectionVars false
+variable [Cfg]
 
 theorem alookup_mem {β : Type} : ∀ {l : List (Nat × β)} {k : Nat} {v : β}, alookup l k = some v → (k, v) ∈ l
   | [], _, _, h => by simp [alookup] at h
